@@ -115,6 +115,22 @@ Fixpoint alter (pos : nat) (x : N) (bs : list N) : list N :=
   | b :: r, S p => b :: alter p x r
   end.
 
+(* ------------------------------------------------------------------ 2b. the Tink wrapper (bbs_verifier_factory.go) *)
+(* A keyset with ONE key of the given output prefix type.  wrappedVerifier.VerifyProof / Verify: the first 5 bytes
+   select the non-raw keys with that prefix, which verify the rest; then the raw keys verify the whole input; if
+   nobody accepted the result is an error.  With no key for the prefix and no raw key nothing is verified: reject. *)
+Inductive prefix_kind := PRaw | PTink | PLegacy | PCrunchy.
+
+Definition bytes_eqb (a b : list N) : bool :=
+  Nat.eqb (length a) (length b) && forallb (fun '(x, y) => N.eqb x y) (combine a b).
+
+Definition wrapped_verify (k : prefix_kind) (keypfx : list N) (bytes : list N) (inner : list N -> verdict) : verdict :=
+  if length bytes <? 5 then VReject
+  else match k with
+       | PRaw => inner bytes
+       | _ => if bytes_eqb (firstn 5 bytes) keypfx then inner (skipn 5 bytes) else VReject
+       end.
+
 (* ------------------------------------------------------------------ 3. exponent model *)
 
 Section Exponent.
